@@ -413,6 +413,14 @@ class MapV:
         self.cells = EMPTY
 
 
+class Disc(tuple):
+    """discriminant of a guarded union: behaves like the tuple ('disc', adt)"""
+    cells = EMPTY
+
+    def __new__(cls, adt):
+        return tuple.__new__(cls, ('disc', adt))
+
+
 class _Special:
     cells = EMPTY
 
@@ -429,7 +437,7 @@ UNINIT = _Special('UNINIT')
 
 
 def cells_of(v):
-    if isinstance(v, (int, bool, z3.ExprRef, str, bytes)) or v is None:
+    if isinstance(v, (int, bool, z3.ExprRef, str, bytes, tuple)) or v is None:
         return EMPTY
     return v.cells
 
@@ -602,9 +610,10 @@ def _unm(a, b):
 class Veq:
     """structural equality of two values as a z3 Bool (memoised on identities)"""
 
-    def __init__(self):
+    def __init__(self, lenient=False):
         self.memo = {}
         self.keep = []
+        self.lenient = lenient
 
     def eq(self, a, b):
         if a is b:
@@ -639,6 +648,8 @@ class Veq:
                 b = z3.BitVecVal(b, a.size())
             return a == b
         if type(a) is not type(b):
+            if self.lenient:
+                return False
             raise EngineError('veq of %s and %s' % (type(a).__name__, type(b).__name__))
         if isinstance(a, tuple) and a[0] == 'disc':
             A, B = a[1], b[1]
